@@ -184,6 +184,31 @@ pub fn run(ctx: &Ctx, rep: &mut Report) {
         let e = if i % 3 == 0 { with_groups(&e, &mut r, 3) } else { e };
         check(&e, &format!("random:{}", i), rep, false);
     });
+    // user strings that spell pieces of the emitted program (a decision taken by looking at the emitted text
+    // instead of the tree goes wrong on them), in action-free expressions and next to actions
+    let sp = program_spellings();
+    let n_sp = ctx.pick(sp.len() as u64, 40 * sp.len() as u64);
+    par_cases(ctx, "spelling", n_sp, rep, |i, rep| {
+        let mut r = Rng::for_case(ctx.seed, "spelling", i);
+        let w = sp[(i as usize) % sp.len()].clone();
+        let carrier = match r.below(5) {
+            0 => t(Test::Pool(w)),
+            1 => t(Test::Xattr(w)),
+            2 => t(Test::XattrMatch("user".into(), w)),
+            3 => t(Test::Name(w)),
+            _ => t(Test::InsensitivePath(w)),
+        };
+        let other = leaf(r.below(6));
+        let e = match r.below(5) {
+            0 => carrier,
+            1 => or(carrier, other),
+            2 => and(other, carrier),
+            3 => not(carrier),
+            _ => list(carrier, other),
+        };
+        rep.count("program_spelling_strings");
+        check(&e, &format!("spelling:{}", i), rep, false);
+    });
     let n_text = ctx.pick(500, 20_000);
     par_cases(ctx, "text", n_text, rep, |i, rep| {
         let mut r = Rng::for_case(ctx.seed, "text", i);
